@@ -34,6 +34,9 @@ func errText(err error) (s string) {
 // scale-up path depends on (anything but node removal calls); a refused termination or a
 // failed node deletion earlier in the scan leaves the untaint / remainder arithmetic well defined.
 func scaleUpDisturbed(rec *ScanRecord, gr *GroupRec) bool {
+	if rec.MidScanChange {
+		return true
+	}
 	for _, e := range append(append([]sim.Entry{}, rec.Prelude...), gr.Seg...) {
 		if e.Injected && e.Kind != sim.ATerminateInASG && e.Kind != sim.KDelete {
 			return true
@@ -46,6 +49,9 @@ func scaleUpDisturbed(rec *ScanRecord, gr *GroupRec) bool {
 // (describe / increase / attach / list). Failed node reads and writes only reduce the number
 // of nodes actually untainted.
 func cloudPathDisturbed(rec *ScanRecord, gr *GroupRec) bool {
+	if rec.MidScanChange {
+		return true
+	}
 	for _, e := range append(append([]sim.Entry{}, rec.Prelude...), gr.Seg...) {
 		if e.Injected && e.Kind != sim.ATerminateInASG && e.Kind != sim.KDelete && e.Kind != sim.KGet && e.Kind != sim.KUpdate {
 			return true
@@ -518,6 +524,9 @@ func increaseTarget(w *World, rec *ScanRecord, gr *GroupRec, e sim.Entry) int64 
 		if t.Seq < e.Seq && t.Kind == sim.ATerminateInASG && t.OK() {
 			base--
 		}
+		if t.Seq < e.Seq && t.Kind == sim.AAttach && t.OK() { // an earlier fleet of the same scan that was attached in part
+			base += int64(len(t.IDs))
+		}
 	}
 	return base + e.Value
 }
@@ -552,7 +561,7 @@ func (w *World) M04(rec *ScanRecord) []Violation {
 		// what escalator asks of the provider object counts as asking the cloud provider, whether or
 		// not the provider turns it down: IncreaseSize(delta) on top of the current target stays within the bound
 		for _, e := range gr.IncreaseCalls {
-			if cur := desiredAtScaleUp(w, rec, gr); e.Value > 0 && cur+e.Value > B && len(gr.Increase) == 0 {
+			if cur := desiredAtScaleUp(w, rec, gr); e.Value > 0 && cur+e.Value > B && len(gr.Increase) == 0 && !rec.MidScanChange {
 				out = append(out, viol("C04", "asked-above-bound", "group %d: IncreaseSize(%d) on a current target of %d exceeds min(max_nodes %d, cloud max %d)", gr.G, e.Value, cur, gr.EffMax, rec.ASGs[w.CloudName(gr.G)].Max))
 			}
 		}
@@ -634,6 +643,23 @@ func (w *World) M05(rec *ScanRecord) []Violation {
 	var out []Violation
 	for _, gr := range rec.Groups {
 		ex := w.Expectation(rec, gr)
+		// whatever fails on the way, what actually arrives stays within one node of the need: untaints
+		// that were accepted, desired-capacity raises that were accepted, fleet instances that were attached
+		if ex.Kind == "band" && ex.Need >= 0 && !ex.NoSizeKnown && ex.Bands == [4]bool{false, false, false, true} && cloudPathDisturbed(rec, gr) && !rec.MidScanChange {
+			K, _, _, _ := brought(gr)
+			arrived := K
+			for _, e := range gr.Seg {
+				switch {
+				case e.Kind == sim.ASetDesired && e.OK() && e.Value > e.PreDesired:
+					arrived += e.Value - e.PreDesired
+				case e.Kind == sim.AAttach && e.OK():
+					arrived += int64(len(e.IDs))
+				}
+			}
+			if arrived > ex.Need+1 {
+				out = append(out, viol("C05", "over-by-two-despite-failures", "group %d: need %d, but %d nodes arrived (untaints, accepted resizes and attached fleet instances of this scan)", gr.G, ex.Need, arrived))
+			}
+		}
 		if ex.Kind != "band" || cloudPathDisturbed(rec, gr) || ex.Need < 0 {
 			continue
 		}
